@@ -394,8 +394,8 @@ def written_values(e, flow=None, at=None, depth=0):
     if isinstance(e, ast.BinOp) and isinstance(e.op, ast.Add):
         l = written_values(e.left, flow, at, depth + 1)
         r = written_values(e.right, flow, at, depth + 1)
-        if isinstance(e.left, (ast.Tuple, ast.Call, ast.Name, ast.BinOp)) and \
-           isinstance(e.right, (ast.Tuple, ast.Call, ast.Name, ast.BinOp)) and \
+        if isinstance(e.left, (ast.Tuple, ast.Call, ast.Name, ast.BinOp, ast.Subscript)) and \
+           isinstance(e.right, (ast.Tuple, ast.Call, ast.Name, ast.BinOp, ast.Subscript)) and \
            (isinstance(e.left, ast.Tuple) or isinstance(e.right, ast.Tuple) or
                 _is_tuple_producer(e.left) or _is_tuple_producer(e.right)):
             return l + r
